@@ -4,14 +4,16 @@ VARIABLE l
 Trace == ndJsonDeserialize(IOEnv.VERIF_TRACE)
 \* JSON arrays arrive as sequences: back to sets
 In(t)  == [t.input EXCEPT !.ops = ToSet(@)]
-Obs(t) == [ran |-> ToSet(t.obs.ran), wrong |-> ToSet(t.obs.wrong), reached |-> t.obs.reached]
+Obs(t) == [ran |-> ToSet(t.obs.ran), wrong |-> ToSet(t.obs.wrong), reached |-> t.obs.reached, config_same |-> t.obs.config_same]
 FailSet(t) ==
    (IF C17_OK(t.cfg, In(t), Obs(t)) THEN {} ELSE {"C17"}) \cup
    (IF C12_OK(t.cfg, In(t), Obs(t)) THEN {} ELSE {"C12"}) \cup
    (IF C14_OK(t.cfg, In(t), Obs(t)) THEN {} ELSE {"C14"}) \cup
    (IF C16_OK(t.cfg, In(t), Obs(t)) THEN {} ELSE {"C16"}) \cup
    (IF C13_OK(t.cfg, In(t), Obs(t)) THEN {} ELSE {"C13"}) \cup
-   (IF C11_OK(t.cfg, In(t), Obs(t)) THEN {} ELSE {"C11"})
+   (IF C11_OK(t.cfg, In(t), Obs(t)) THEN {} ELSE {"C11"}) \cup
+   (IF C02_OK(t.cfg, In(t), Obs(t)) THEN {} ELSE {"C02"}) \cup
+   (IF C05_OK(t.cfg, In(t), Obs(t)) THEN {} ELSE {"C05"})
 Verdict(t) == [case |-> t.case, fails |-> FailSet(t), drift |-> ~Conforms(ModelOut(t.cfg, In(t)), Obs(t))]
 Init == l = 1
 Next == /\ l <= Len(Trace)
